@@ -1,4 +1,5 @@
 import Uft.Lemmas.Mcount
+import Uft.Lemmas.McountCore
 /- C05 — Record-time filters and triggers select exactly the documented calls. -/
 namespace Uft.C05
 open Uft.Mcount
@@ -15,5 +16,58 @@ theorem c05_pg_leak_witness :
     (runCall cfgFL .pg (St.init cfgFL) (.node 0 10 20 .nil)).filt.inCount = 1 ∧
     (runCall cfgFL .cyg (St.init cfgFL) (.node 0 10 20 .nil)).filt.inCount = 0 := by
   decide
+
+theorem entry_cyg_took (cfg : Cfg) (s : St) (f t0 : Nat) : (entry cfg .cyg s f t0).2 = true := by
+  unfold entry
+  simp only
+  split <;> rfl
+
+/-
+The filter state (`core`: in/out counts, depth, max-depth, time and size
+thresholds, record index, shadow-stack shape with each frame's saved values) of
+a thread after a call returned equals the state before the call — for every
+trigger table (any mix of filter / notrace / depth / time / size / trace /
+trace_on / trace_off / caller / location triggers; `finish` excluded, it ends
+tracing), every option set, every call tree (any depth, also beyond
+--max-stack), for the hook family that pushes a frame for every call
+(-finstrument-functions / xray).  This is "a filter hit never leaks into later
+sibling calls".
+-/
+mutual
+theorem restored_call (cfg : Cfg) (hf : cfg.fast = false) (hfin : ∀ f, (cfg.trig f).finish = false) :
+    ∀ (c : Call) (s : St), (core s).WF cfg → core (runCall cfg .cyg s c) = core s
+  | .node f t0 t1 kids, s, hwf => by
+    have h1 := core_entry_cyg cfg hf s f t0 (hfin f)
+    have hwf1 : (core (entry cfg .cyg s f t0).1).WF cfg := by rw [h1]; exact entryCore_wf cfg f _ hwf
+    have hk := restored_calls cfg hf hfin kids (entry cfg .cyg s f t0).1 hwf1
+    simp only [runCall, entry_cyg_took, ↓reduceIte]
+    rw [core_exit cfg hf, hk, h1, exitCore_entryCore cfg f _ hwf]
+theorem restored_calls (cfg : Cfg) (hf : cfg.fast = false) (hfin : ∀ f, (cfg.trig f).finish = false) :
+    ∀ (cs : Calls) (s : St), (core s).WF cfg → core (runCalls cfg .cyg s cs) = core s
+  | .nil, s, _ => rfl
+  | .cons c rest, s, hwf => by
+    have h1 := restored_call cfg hf hfin c s hwf
+    have h2 := restored_calls cfg hf hfin rest (runCall cfg .cyg s c) (by rw [h1]; exact hwf)
+    simp only [runCalls]
+    rw [h2, h1]
+end
+
+/-- C05, state restoration: see the comment above `restored_call`. -/
+theorem c05_state_restored_cyg (cfg : Cfg) (hf : cfg.fast = false)
+    (hfin : ∀ f, (cfg.trig f).finish = false) (c : Call) (s : St) (hwf : (core s).WF cfg) :
+    core (runCall cfg .cyg s c) = core s :=
+  restored_call cfg hf hfin c s hwf
+
+/-- … in particular from a fresh thread, after any forest of calls, the filter
+    state is the initial one. -/
+theorem c05_forest_restores_initial_cyg (cfg : Cfg) (hf : cfg.fast = false)
+    (hfin : ∀ f, (cfg.trig f).finish = false) (cs : Calls) :
+    core (runCalls cfg .cyg (St.init cfg) cs) = core (St.init cfg) :=
+  restored_calls cfg hf hfin cs (St.init cfg) (Or.inl rfl)
+
+/-- non-vacuity: the F4 configuration satisfies the hypotheses (no finish trigger, regular build) -/
+example : cfgFL.fast = false ∧ ∀ f, (cfgFL.trig f).finish = false := by
+  refine ⟨rfl, fun f => ?_⟩
+  simp only [cfgFL]; split <;> (try split) <;> rfl
 
 end Uft.C05
